@@ -189,6 +189,11 @@ fn check<T: Elem>(c: &VecCall<T>, ar: &mut Arenas, sib: &Option<crate::elem::Rou
     if h & 1 == 1 {
         c2.place = [Place::AlignLo(k(7)), Place::AlignHi(k(17)), Place::Start];
     }
+    // every fourth case: all slices cache-line (in fact page) aligned in run 2 — the one placement a kernel selection keyed
+    // on alignment would treat differently from the unaligned end-flush placement of run 1
+    if (h >> 33) % 4 == 0 {
+        c2.place = [Place::AlignLo(0), Place::AlignLo(0), Place::AlignLo(0)];
+    }
     c2.poison = 0x3C;
     c2.prefill = 0x5A5A_5A5A_5A5A_5A5A;
     // when the two inputs have the same contents, the second run hands the routine one slice for both
